@@ -68,7 +68,7 @@ AncIvs == [s \in Sims |-> [a \in Sims |-> PathIvs(a, s, Cardinality(Sims))]]   \
 Tok(s, k, a) == s \o "." \o ToString(k) \o "." \o a
 
 VARIABLES
-  pc,        \* [Sims -> {"init","settle","wait","step","getdata","done"}]
+  pc,        \* [Sims -> {"init","settle","wait","step","getdata","done","failed"}]
   progress,  \* SimRunner.progress.time
   nexts,     \* SimRunner.next_steps (the heap, as a set: schedule_step de-duplicates)
   cur,       \* SimRunner.current_step  (None when idle)
@@ -87,6 +87,10 @@ ctl  == <<pc, progress, nexts, cur, last, tgt>>
 data == <<cacheT, cacheV, buf, pmem, setd>>
 
 NoErr == err = <<>>
+\* An exception in one simulator's process ends that process; run() raises once the event loop
+\* gets to it - until then the OTHER processes keep running (End may come at any later point).
+Fail(s, kind) == /\ err' = IF NoErr THEN <<kind, s>> ELSE err
+                 /\ pc' = [pc EXCEPT ![s] = "failed"]
 
 ----------------------------------------------------------------------------
 (* advance_progress / get_max_advance                                      *)
@@ -161,13 +165,13 @@ Init ==
   /\ viol = {}
 
 Start(s) ==
-  /\ pc[s] = "init" /\ NoErr
+  /\ pc[s] = "init" /\ ~ended
   /\ progress' = [progress EXCEPT ![s] = NewProgress(s, nexts, cur)]
   /\ pc' = [pc EXCEPT ![s] = "settle"]
   /\ UNCHANGED <<nexts, cur, last, tgt, data, err, ended, h, viol>>
 
 Settle(s) ==
-  /\ pc[s] = "settle" /\ NoErr
+  /\ pc[s] = "settle" /\ ~ended
   /\ progress[s][1] < Until
   /\ nexts[s] # {} /\ TMin(nexts[s]) = progress[s]
   /\ pc' = [pc EXCEPT ![s] = "wait"]
@@ -175,7 +179,7 @@ Settle(s) ==
   /\ UNCHANGED <<progress, nexts, cur, last, data, err, ended, h, viol>>
 
 Finish(s) ==
-  /\ pc[s] = "settle" /\ NoErr
+  /\ pc[s] = "settle" /\ ~ended
   /\ progress[s][1] >= Until
   /\ pc' = [pc EXCEPT ![s] = "done"]
   /\ UNCHANGED <<progress, nexts, cur, last, tgt, data, err, ended, h, viol>>
@@ -187,14 +191,14 @@ DepsReady(s) ==
   /\ SC.lazy => \A q \in Succs(s) : TLeq(Apply(tgt[s], AdaptIv(SC, s, q)), progress[q])
 
 BeginStep(s) ==
-  /\ pc[s] = "wait" /\ NoErr
+  /\ pc[s] = "wait" /\ ~ended
   /\ DepsReady(s)
   /\ LET c == TMin(nexts[s]) IN
-       IF c # progress[s] THEN
-          err' = <<"already_progressed", s>> /\ UNCHANGED <<ctl, data, ended, h, viol>>
-       ELSE IF OverLoop(SC, c) THEN
-          \* heappop happened, current_step is set, then the guard raises
-          err' = <<"loop", s>> /\ UNCHANGED <<ctl, data, ended, h, viol>>
+       IF c # progress[s] \/ OverLoop(SC, c) THEN
+          \* heappop happened, current_step is set, then one of the two guards raises
+          /\ Fail(s, IF c # progress[s] THEN "already_progressed" ELSE "loop")
+          /\ cur' = [cur EXCEPT ![s] = c] /\ nexts' = [nexts EXCEPT ![s] = @ \ {c}]
+          /\ UNCHANGED <<progress, last, tgt, data, ended, h, viol>>
        ELSE
           LET t == c[1]
               inp == InputOf(s, t)
@@ -220,11 +224,10 @@ PostStep(s, nx, cT, cV) ==
   IN /\ nexts' = nx
      /\ cur' = cu
      /\ IF \E x \in Sims : TLess(np[x], progress[x])
-          THEN err' = <<"backwards", CHOOSE x \in Sims : TLess(np[x], progress[x])>> /\ UNCHANGED progress
-          ELSE progress' = np /\ UNCHANGED err
+          THEN Fail(s, "backwards") /\ UNCHANGED progress
+          ELSE progress' = np /\ pc' = [pc EXCEPT ![s] = "settle"] /\ UNCHANGED err
      /\ cacheT' = [x \in Sims |-> IF SC.cache THEN {y \in cT[x] : y >= KeepFrom(x)} ELSE cT[x]]
      /\ cacheV' = [x \in Sims |-> IF SC.cache THEN {y \in cV[x] : y[1] >= KeepFrom(x)} ELSE cV[x]]
-     /\ pc' = [pc EXCEPT ![s] = "settle"]
 
 NextChoices(s, t) ==
   LET offs == IF TypeOf(SC, s) = "time-based" THEN NextOffs \ {0} ELSE NextOffs
@@ -234,7 +237,7 @@ NextChoices(s, t) ==
            ELSE {})
 
 StepReturn(s, r) ==
-  /\ pc[s] = "step" /\ NoErr
+  /\ pc[s] = "step" /\ ~ended
   /\ r \in NextChoices(s, cur[s][1])
   /\ LET t == cur[s][1]
          bad == r.nk = "bad" \/ (r.nk = "int" /\ r.n <= t) \/ (r.nk = "none" /\ TypeOf(SC, s) = "time-based")
@@ -243,8 +246,8 @@ StepReturn(s, r) ==
      IN /\ last' = [last EXCEPT ![s] = t]
         /\ Obs([k |-> "SE", s |-> s, nk |-> r.nk, n |-> r.n, nodata |-> nodata])
         /\ IF bad THEN
-              /\ err' = <<IF r.nk = "bad" THEN "bad_next_type" ELSE IF r.nk = "int" THEN "bad_next_past" ELSE "tb_none", s>>
-              /\ UNCHANGED <<pc, progress, nexts, cur, tgt, data, ended>>
+              /\ Fail(s, IF r.nk = "bad" THEN "bad_next_type" ELSE IF r.nk = "int" THEN "bad_next_past" ELSE "tb_none")
+              /\ UNCHANGED <<progress, nexts, cur, tgt, data, ended>>
            ELSE IF nodata THEN
               /\ PostStep(s, nx, cacheT, cacheV)
               /\ UNCHANGED <<tgt, buf, pmem, setd, ended>>
@@ -256,7 +259,7 @@ StepReturn(s, r) ==
 PersReq(s) == {x \in OutReq(s) : \E i \in CI : C(i).src = s /\ C(i).data /\ C(i).pers /\ C(i).se = x[1] /\ C(i).sa = x[2]}
 
 DataReturn(s, attrs, dt) ==
-  /\ pc[s] = "getdata" /\ NoErr
+  /\ pc[s] = "getdata" /\ ~ended
   /\ attrs \in SUBSET OutReq(s)
   /\ PersReq(s) \subseteq attrs                        \* compliance: requested persistent attributes are produced
   /\ dt \in FutOffs \cup (IF Faults THEN {-1} ELSE {})
@@ -276,8 +279,8 @@ DataReturn(s, attrs, dt) ==
                          i \in {i \in CI : C(i).src = s /\ C(i).dst = x /\ C(i).data /\ ~Pulled(i) /\ <<C(i).se, C(i).sa>> \in attrs}}
      IN /\ Obs([k |-> "DE", s |-> s, otk |-> "int", ot |-> oti, vals |-> vals])
         /\ IF dt < 0 THEN
-              /\ err' = <<"bad_output_time", s>>
-              /\ UNCHANGED <<ctl, data, ended>>
+              /\ Fail(s, "bad_output_time")
+              /\ UNCHANGED <<progress, nexts, cur, last, tgt, data, ended>>
            ELSE
               /\ UNCHANGED <<last, tgt, pmem, setd, ended>>
               /\ buf' = [x \in Sims |-> buf[x] \cup pushed(x)]
@@ -285,7 +288,7 @@ DataReturn(s, attrs, dt) ==
 
 \* MosaikRemote.set_data during the agent's step
 SetData(b, a, attr, n) ==
-  /\ pc[b] = "step" /\ NoErr /\ <<b, a, attr>> \in Agents
+  /\ pc[b] = "step" /\ ~ended /\ <<b, a, attr>> \in Agents
   /\ n \in 1..2
   /\ ~\E d \in setd : d.src = b /\ d.dst = a /\ d.da = attr /\ d.val = Tok(b, h.nd[b], "sd" \o ToString(n))   \* at most once per step and n
   /\ LET new == [dst |-> a, de |-> "E0", da |-> attr, src |-> b, se |-> "E0", val |-> Tok(b, h.nd[b], "sd" \o ToString(n))]
@@ -334,13 +337,13 @@ InvC13 == Of({"C13_step_after_malformed_reply", "C13_malformed_reply_accepted", 
 InvC16 == Of({"C16_async_order", "C16_refusal", "C16_set_data_failed"})
 
 \* mechanism invariants (model only)
-TypeOK == /\ \A s \in Sims : pc[s] \in {"init", "settle", "wait", "step", "getdata", "done"}
+TypeOK == /\ \A s \in Sims : pc[s] \in {"init", "settle", "wait", "step", "getdata", "done", "failed"}
           /\ \A s \in Sims : Len(progress[s]) = Depth(s)
 ProgressBound == \A s \in Sims : pc[s] # "init" =>
                     /\ \A x \in nexts[s] : TLeq(progress[s], x)
                     /\ cur[s] # None => TLeq(progress[s], cur[s])
 \* the reference semantics derives the same tiered step time as the scheduler
-TauAgree == \A s \in Sims : cur[s] # None => h.lastd[s] = cur[s]
+TauAgree == \A s \in Sims : (cur[s] # None /\ pc[s] # "failed") => h.lastd[s] = cur[s]
 
 Termination == <>ended
 =============================================================================
